@@ -412,7 +412,7 @@ def call_builtin(ex, name, args, kwargs, node):
   if name == 'len':
     v = args[0]
     if isinstance(v, VOpt):
-      ex.path.oblige(f'{ex.contract.qual}/safety/len_not_none#{node.lineno}',
+      ex.path.oblige(f'{ex.contract.qual}/safety/len_not_none#{ex.at(node)}',
                      z3.Not(v.is_none))
       ex.path.assume(z3.Not(v.is_none))
       v = v.inner
@@ -646,7 +646,7 @@ def _list_method(ex, obj, name, args, kwargs, node):
   if name == 'append':
     v = materialize(ex, args[0], obj.kind.elem)
     if isinstance(v, VOpt) and not isinstance(obj.kind.elem, KOpt):
-      ex.path.oblige(f'{ex.contract.qual}/safety/appended_value_not_none#{node.lineno}',
+      ex.path.oblige(f'{ex.contract.qual}/safety/appended_value_not_none#{ex.at(node)}',
                      z3.Not(v.is_none))
       ex.path.assume(z3.Not(v.is_none))
       v = v.inner
